@@ -543,6 +543,37 @@ def run_single(ck, c):
     return res, model_single(c, mc, call, am, pieces)
 
 
+def renumbered(mc, rng):
+    """the same mesh with permuted node numbers, faces kept in order and size (same n_nodes_per_face pattern),
+    optionally rotated about the axis by whole degrees"""
+    n = len(mc["lon_u"])
+    perm = list(range(n))
+    rng.shuffle(perm)                      # old -> new
+    lon, lat, xyz = [0] * n, [0] * n, [None] * n
+    rot = rng.choice([0, 0, 17, -33, 61]) * U
+    for o, nw in enumerate(perm):
+        lon[nw] = ((mc["lon_u"][o] + rot + H) % (2 * H)) - H
+        lat[nw] = mc["lat_u"][o]
+        xyz[nw] = mc["xyz"][o]
+    faces = []
+    for f in mc["faces"]:
+        g = [perm[i] for i in f]
+        r = rng.randrange(len(g))
+        faces.append(g[r:] + g[:r])
+    return {"faces": faces, "lon_u": lon, "lat_u": lat, "xyz": xyz}
+
+
+def run_twogrid(ck, c):
+    """another grid with the same face count and face-size pattern is converted first in this process; the
+    conversion of this grid is then judged against its own corners (independent oracle)"""
+    try:
+        g0 = build_grid(c["first"])
+        convert(g0, c["first_call"])
+    except Exception:
+        pass
+    return run_single(ck, c)
+
+
 def cmp_single(ck, c, res, mo):
     call = c["call"]
     if call["export"] == "line":
@@ -1089,14 +1120,34 @@ def gen_cases(ck):
                 fin["override"] = rng.random() < 0.1
                 steps[-1] = fin
         cases.append({"kind": "hist", "mesh": mc, "steps": steps})
+    # two grids with coinciding counts and face-size patterns in one process (module-level state)
+    for _ in range(10 if quick else 300):
+        a = pick_mesh(rng, want_am=True if rng.random() < 0.7 else None)
+        b = None
+        for _t in range(20):
+            cand = renumbered(a, rng)
+            if frame_ok(cand, 0):
+                b = cand
+                break
+        if b is None:
+            continue
+        first, second = (a, b) if rng.random() < 0.5 else (b, a)
+        c1 = gen_call(rng, first)
+        c2 = gen_call(rng, second)
+        if rng.random() < 0.5:
+            c2 = dict(c1, var=rng.randrange(3))              # the very same conversion on the second grid
+        for cl in (c1, c2):
+            if cl["proj"] is not None and not frame_ok(second if cl is c2 else first, proj_cl_u(cl["proj"])):
+                cl["proj"] = None
+        cases.append({"kind": "twogrid", "mesh": second, "first": first, "first_call": c1, "call": c2})
     # the side tables of every single conversion that has them
     for c in [c for c in cases if c["kind"] == "single" and c["call"]["export"] in ("poly", "gdf")]:
         cases.append({"kind": "tables", "mesh": c["mesh"], "call": c["call"]})
     return cases
 
 
-RUNNERS = {"am": run_am, "single": run_single, "hist": run_hist, "tables": run_tables}
-CMPS = {"am": cmp_am, "single": cmp_single, "hist": cmp_hist, "tables": cmp_tables}
+RUNNERS = {"am": run_am, "single": run_single, "hist": run_hist, "tables": run_tables, "twogrid": run_twogrid}
+CMPS = {"am": cmp_am, "single": cmp_single, "hist": cmp_hist, "tables": cmp_tables, "twogrid": cmp_single}
 
 
 def strip(c):
